@@ -1,17 +1,24 @@
-import PynguinModel.Lemmas.GoalGraph
+import PynguinModel.Lemmas.GoalGraphBuild
 /-!
 # C07 — Every branch goal is reachable in the DynaMOSA goal graph
 
 Dynamic part (`Inv`, for every goal graph and every search history): after `__init__` and after
 every `update`, every root goal and every structural child of a covered goal is a current goal or
 already covered, current goals are never covered ones, and everything the archive tracks is current
-or covered.  Consequently (`path_goal_current`) a goal becomes current as soon as the goals before it
-on any path from a root are covered — the goal graph's reachability (checked on each real module
-with the verified checker `checkGoalPath`) is what makes every goal attainable.
-Static part (`buildGraph_*`): `_build_graph` mirrors are executable and compared with the real
-class on every generated module; its failure modes are explicit (`BuildErr`).
+or covered (`inv_history`).  Consequently a goal is current as soon as one — a fortiori all — of the
+goals it depends on is covered (`goal_current_when_parent_covered`, `path_goal_current`), and when the
+current goals run empty every goal reachable in the goal graph is covered
+(`all_covered_when_no_current`).
+
+Static part (`all_goals_reachable`, for all registries and all stored CDGs satisfying `CoOK` /
+`RegistryOK`): `_build_graph` raises nothing (no `KeyError` for `nodes_predicates[dependency.node]`,
+no `RuntimeError`, no "Root branches" assertion) and every goal is reachable from a root goal.
+`removeNodes_preserves`: the node removal of `_create_covered_cdg` (re-linking without branch values)
+keeps the two graph hypotheses.  `checkModule_sound`: the executable checkers the driver runs on every
+exported real module imply the hypotheses, hence the conclusion for that module.
 -/
 namespace PynguinModel.GoalGraph
+open PynguinModel.Cdg (Node Label)
 
 structure Inv (G : GG) (s : St) : Prop where
   roots : ∀ g ∈ G.roots, g ∈ s.current ∨ g ∈ s.covered
@@ -167,6 +174,431 @@ theorem covered_mono_update (G : GG) (cov : Goal → Bool) :
     · exact covered_mono_update G cov fuel _ x (covered_mono_pass G cov s x h)
     · exact covered_mono_pass G cov s x h
 
+/-- Nothing is left behind: when the set of current goals runs empty, every goal that is reachable
+in the goal graph is covered (so, with `all_goals_reachable`, every goal of the module). -/
+theorem all_covered_when_no_current {G : GG} {s : St} (h : Inv G s) (he : s.current = [])
+    {g : Goal} (hg : GoalReach G g) : g ∈ s.covered := by
+  induction hg with
+  | root hr =>
+    rcases h.roots _ hr with h1 | h1
+    · rw [he] at h1; cases h1
+    · exact h1
+  | step _ hedge ih =>
+    rcases h.closed _ _ hedge ih with h1 | h1
+    · rw [he] at h1; cases h1
+    · exact h1
+
+/-! ### Static part: `_build_graph` succeeds and every goal is reachable from a root goal -/
+
+/-- Hypotheses about one code object's stored CDG `g` (after `_create_covered_cdg`), the registered
+predicates, and the answers `ci` the CDG gave to `_build_graph`. -/
+structure CoOK (preds : List Pred) (ci : CoInfo) (g : CG) (isBlock : Node → Bool) (root : Node) : Prop where
+  /-- every labelled edge that leaves a basic block leaves a registered predicate node -/
+  labelled_registered : ∀ p v m, DepEdge g isBlock p v m → ∃ dp, dp ∈ preds ∧ dp.co = ci.co ∧ dp.node = p
+  /-- the node of a registered predicate is in the CDG and reachable from its root -/
+  has_node : ∀ pm ∈ preds, pm.co = ci.co → ci.hasNode pm.node = true
+  reach : ∀ pm ∈ preds, pm.co = ci.co → Reach g root pm.node
+  /-- `get_control_dependencies` returns exactly the dependence edges that reach the node through
+  pass edges -/
+  deps_spec : ∀ pm ∈ preds, pm.co = ci.co → ∀ p v,
+    (p, v) ∈ ci.deps pm.node ↔ ∃ m, DepEdge g isBlock p v m ∧ PassPath g isBlock m pm.node
+  /-- `is_control_dependent_on_root` finds a pass path from the root when there is one — or, since its
+  `visited` set also swallows nodes met over labelled edges, some control dependency of the node sits
+  strictly closer to the root (for some ranking of the nodes) on a pass path from the root -/
+  root_or_closer : ∃ rank : Node → Nat, ∀ pm ∈ preds, pm.co = ci.co → PassPath g isBlock root pm.node →
+    ci.rootDep pm.node = true ∨
+      ∃ p v, (p, v) ∈ ci.deps pm.node ∧ rank p < rank pm.node ∧ PassPath g isBlock root p
+
+/-- Hypotheses about the registries: predicate ids are keys, the goal pool holds both branch goals of
+every registered predicate and nothing else, code objects of predicates are registered. -/
+structure RegistryOK (goals : List GoalKind) (preds : List Pred) (cos : List CoInfo) : Prop where
+  ids_unique : ∀ p ∈ preds, preds.find? (fun q => q.id == p.id) = some p
+  goals_complete : ∀ p ∈ preds, ∀ v, GoalKind.branch p.co p.id v ∈ goals
+  co_known : ∀ p ∈ preds, ∃ ci, cos.find? (fun c => c.co == p.co) = some ci
+  goals_registered : ∀ c pid v, GoalKind.branch c pid v ∈ goals →
+    ∃ pm, preds.find? (fun p => p.id == pid) = some pm ∧ pm.co = c
+
+section Static
+variable {goals : List GoalKind} {preds : List Pred} {cos : List CoInfo}
+
+/-- Every control dependency of a registered predicate resolves to a registered predicate and to a
+fitness function: no `KeyError`, no `RuntimeError`. -/
+theorem dependency_resolves (hr : RegistryOK goals preds cos) {ci : CoInfo} {g : CG}
+    {isBlock : Node → Bool} {root : Node} (hc : CoOK preds ci g isBlock root)
+    {pm : Pred} (hpm : pm ∈ preds) (hco : pm.co = ci.co) {d : Nat × Bool} (hd : d ∈ ci.deps pm.node) :
+    ∃ j, resolveDep goals preds pm.co d = .ok j := by
+  obtain ⟨p, v⟩ := d
+  obtain ⟨m, hdep, _⟩ := (hc.deps_spec pm hpm hco p v).1 hd
+  obtain ⟨dp, hdp, hdco, hdn⟩ := hc.labelled_registered p v m hdep
+  obtain ⟨dp', hnp⟩ := nodePred_isSome hdp (hdco.trans hco.symm) hdn
+  obtain ⟨hdp', hco', _⟩ := nodePred_some hnp
+  have hgoal : GoalKind.branch pm.co dp'.id v ∈ goals := by
+    have := hr.goals_complete dp' hdp' v
+    rwa [hco'] at this
+  obtain ⟨j, hj⟩ := findGoal_isSome hgoal
+  exact ⟨j, by simp [resolveDep, hnp, hj]⟩
+
+theorem goalPlan_ok (hr : RegistryOK goals preds cos)
+    (hc : ∀ ci ∈ cos, ∃ g isBlock root, CoOK preds ci g isBlock root) {gk : GoalKind} (hg : gk ∈ goals) :
+    ∃ pl, goalPlan goals preds cos gk = .ok pl := by
+  cases gk with
+  | branchless c => exact ⟨⟨true, []⟩, rfl⟩
+  | branch c pid v =>
+    obtain ⟨pm, hpm, _⟩ := hr.goals_registered c pid v hg
+    have hpmem := List.mem_of_find?_eq_some hpm
+    obtain ⟨ci, hci⟩ := hr.co_known pm hpmem
+    have hcimem := List.mem_of_find?_eq_some hci
+    have hcico : pm.co = ci.co := by
+      have := List.find?_some hci
+      simp only [beq_iff_eq] at this
+      exact this.symm
+    obtain ⟨g, isBlock, root, hok⟩ := hc ci hcimem
+    obtain ⟨ps, hps⟩ := mapE_ok_of_forall (f := resolveDep goals preds pm.co) (l := ci.deps pm.node)
+      (fun d hd => dependency_resolves hr hok hpmem hcico hd)
+    exact ⟨⟨ci.rootDep pm.node, ps⟩, by simp [goalPlan, hpm, hci, hok.has_node pm hpmem hcico, hps]⟩
+
+/-- The plan of a branch goal, spelled out. -/
+theorem plan_of_branch {plans : List Plan} (hplans : mapE (goalPlan goals preds cos) goals = .ok plans)
+    {i : Nat} {c pid : Nat} {v : Bool} (hi : goals[i]? = some (.branch c pid v))
+    {pm : Pred} (hpm : preds.find? (fun p => p.id == pid) = some pm)
+    {ci : CoInfo} (hci : cos.find? (fun c => c.co == pm.co) = some ci) :
+    ∃ ps, plans[i]? = some ⟨ci.rootDep pm.node, ps⟩ ∧
+      mapE (resolveDep goals preds pm.co) (ci.deps pm.node) = .ok ps := by
+  obtain ⟨pl, hpl, hf⟩ := mapE_ok_getElem? hplans i _ hi
+  simp only [goalPlan, hpm, hci] at hf
+  split at hf
+  · cases hf
+  · split at hf
+    · cases hf
+    · rename_i ps hps
+      cases hf
+      exact ⟨ps, hpl, hps⟩
+
+/-- A goal whose predicate node has the control dependency `(m, w)` is reachable as soon as the
+goals of the predicate registered on `m` are. -/
+theorem via_dep (hr : RegistryOK goals preds cos) {plans : List Plan}
+    (hplans : mapE (goalPlan goals preds cos) goals = .ok plans)
+    {ci : CoInfo} {pm : Pred} (hpm : pm ∈ preds) (hci : cos.find? (fun c => c.co == pm.co) = some ci)
+    {i c : Nat} {v : Bool} (hi : goals[i]? = some (.branch c pm.id v))
+    {m : Node} {w : Bool} (hd : (m, w) ∈ ci.deps pm.node)
+    (hrec : ∀ dp ∈ preds, dp.co = pm.co → dp.node = m →
+      ∀ j c' v', goals[j]? = some (.branch c' dp.id v') → GoalReach (assemble plans) j) :
+    GoalReach (assemble plans) i := by
+  obtain ⟨ps, hpl, hps⟩ := plan_of_branch hplans hi (hr.ids_unique pm hpm) hci
+  obtain ⟨j, hj, hres⟩ := mapE_ok_mem hps hd
+  unfold resolveDep at hres
+  split at hres
+  · cases hres
+  · rename_i dp hnp
+    split at hres
+    · cases hres
+    · rename_i j' hfg
+      cases hres
+      obtain ⟨hdp, hdco, hdn⟩ := nodePred_some hnp
+      exact GoalReach.step (hrec dp hdp hdco hdn j pm.co w (findGoal_some hfg)) (assemble_edge hpl hj)
+
+/-- Predicate nodes with a pass path from the CDG root: root goals, or — by induction on the rank —
+children of goals of a predicate closer to the root. -/
+theorem reach_root_case (hr : RegistryOK goals preds cos) {plans : List Plan}
+    (hplans : mapE (goalPlan goals preds cos) goals = .ok plans)
+    {ci : CoInfo} {g : CG} {isBlock : Node → Bool} {root : Node} (hok : CoOK preds ci g isBlock root) :
+    ∀ pm ∈ preds, pm.co = ci.co → cos.find? (fun c => c.co == pm.co) = some ci →
+      PassPath g isBlock root pm.node →
+      ∀ i c v, goals[i]? = some (.branch c pm.id v) → GoalReach (assemble plans) i := by
+  obtain ⟨rank, hrank⟩ := hok.root_or_closer
+  suffices h : ∀ N, ∀ pm ∈ preds, rank pm.node = N → pm.co = ci.co →
+      cos.find? (fun c => c.co == pm.co) = some ci → PassPath g isBlock root pm.node →
+      ∀ i c v, goals[i]? = some (.branch c pm.id v) → GoalReach (assemble plans) i from
+    fun pm hpm => h (rank pm.node) pm hpm rfl
+  intro N
+  induction N using Nat.strongRecOn with
+  | _ N ih =>
+    intro pm hpm hN hco hci hpath i c v hi
+    rcases hrank pm hpm hco hpath with hroot | ⟨p, w, hd, hlt, hpp⟩
+    · obtain ⟨ps, hpl, _⟩ := plan_of_branch hplans hi (hr.ids_unique pm hpm) hci
+      exact GoalReach.root (assemble_root hpl hroot)
+    · refine via_dep hr hplans hpm hci hi hd ?_
+      intro dp hdp hdco hdn j c' v' hj
+      have hci' : cos.find? (fun c => c.co == dp.co) = some ci := by rw [hdco]; exact hci
+      refine ih (rank dp.node) ?_ dp hdp rfl (hdco.trans hco) hci' ?_ j c' v' hj
+      · rw [hdn, ← hN]; exact hlt
+      · rw [hdn]; exact hpp
+
+/-- Core induction: walking the CDG from its root, the goals of every registered predicate met on
+the way (or reached from there through pass edges) are reachable from a root goal. -/
+theorem reach_core (hr : RegistryOK goals preds cos) {plans : List Plan}
+    (hplans : mapE (goalPlan goals preds cos) goals = .ok plans)
+    {ci : CoInfo} {g : CG} {isBlock : Node → Bool} {root : Node} (hok : CoOK preds ci g isBlock root)
+    {n : Node} (hn : Reach g root n) :
+    ∀ pm ∈ preds, pm.co = ci.co → cos.find? (fun c => c.co == pm.co) = some ci →
+      PassPath g isBlock n pm.node →
+      ∀ i c v, goals[i]? = some (.branch c pm.id v) → GoalReach (assemble plans) i := by
+  induction hn with
+  | root => exact reach_root_case hr hplans hok
+  | @step m n l _ hedge ih =>
+    intro pm hpm hco hci hpath i c v hi
+    rcases edge_cases (isBlock := isBlock) hedge with hpass | ⟨w, hdep⟩
+    · exact ih pm hpm hco hci (PassPath.head hpass hpath) i c v hi
+    · -- the last dependence edge before `pm.node`: its source is a registered predicate
+      have hd : (m, w) ∈ ci.deps pm.node := (hok.deps_spec pm hpm hco m w).2 ⟨n, hdep, hpath⟩
+      refine via_dep hr hplans hpm hci hi hd ?_
+      intro dp hdp hdco hdn j c' v' hj
+      have hci' : cos.find? (fun c => c.co == dp.co) = some ci := by rw [hdco]; exact hci
+      refine ih dp hdp (hdco.trans hco) hci' ?_ j c' v' hj
+      rw [hdn]; exact PassPath.refl _
+
+/-- **C07, static part.**  If every code object's stored CDG satisfies `CoOK` (root-reachability of
+predicate nodes, labelled edges leave registered predicates, the two CDG queries answer what the
+graph defines) and the registries are consistent, then `_build_graph` raises nothing — neither the
+`KeyError` of `nodes_predicates[dependency.node]`, nor the `RuntimeError` of
+`_goal_to_fitness_function`, nor the "Root branches" assertion — and every goal is reachable from a
+root goal in the graph it builds. -/
+theorem all_goals_reachable (hr : RegistryOK goals preds cos)
+    (hc : ∀ ci ∈ cos, ∃ g isBlock root, CoOK preds ci g isBlock root) :
+    ∃ G, buildGraph goals preds cos = .ok G ∧ ∀ i, i < goals.length → GoalReach G i := by
+  obtain ⟨plans, hplans⟩ := mapE_ok_of_forall (f := goalPlan goals preds cos) (l := goals)
+    (fun gk hg => goalPlan_ok hr hc hg)
+  have hreach : ∀ i, i < goals.length → GoalReach (assemble plans) i := by
+    intro i hi
+    have hgi : goals[i]? = some goals[i] := by simp [hi]
+    cases hk : goals[i] with
+    | branchless c =>
+      rw [hk] at hgi
+      obtain ⟨pl, hpl, hf⟩ := mapE_ok_getElem? hplans i _ hgi
+      simp only [goalPlan] at hf
+      cases hf
+      exact GoalReach.root (assemble_root hpl rfl)
+    | branch c pid v =>
+      rw [hk] at hgi
+      have hmem : GoalKind.branch c pid v ∈ goals := List.mem_iff_getElem?.2 ⟨i, hgi⟩
+      obtain ⟨pm, hpm, _⟩ := hr.goals_registered c pid v hmem
+      have hpmem := List.mem_of_find?_eq_some hpm
+      have hid : pm.id = pid := by
+        have := List.find?_some hpm
+        simpa using this
+      obtain ⟨ci, hci⟩ := hr.co_known pm hpmem
+      have hcico : pm.co = ci.co := by
+        have := List.find?_some hci
+        simp only [beq_iff_eq] at this
+        exact this.symm
+      obtain ⟨g, isBlock, root, hok⟩ := hc ci (List.mem_of_find?_eq_some hci)
+      subst hid
+      exact reach_core hr hplans hok (hok.reach pm hpmem hcico) pm hpmem hcico hci (PassPath.refl _) i c v hgi
+  refine ⟨assemble plans, ?_, hreach⟩
+  have hs : sanityOk goals.length (assemble plans) = true := by
+    simp only [sanityOk, List.all_eq_true, List.mem_range, Bool.or_eq_true, List.any_eq_true, beq_iff_eq,
+      List.contains_eq_mem, decide_eq_true_eq]
+    intro i hi
+    cases hreach i hi with
+    | root h => exact Or.inr h
+    | step _ h => exact Or.inl ⟨_, h, rfl⟩
+  simp [buildGraph, hplans, hs]
+
+end Static
+
+/-- **C07, end to end.**  For every goal graph built under the hypotheses above and every search
+history: a goal all of whose predecessors on some path from a root goal are covered is a current goal
+(or already covered); no goal is out of reach; and when the current goals run empty every goal is
+covered. -/
+theorem every_goal_attainable {goals : List GoalKind} {preds : List Pred} {cos : List CoInfo}
+    (hr : RegistryOK goals preds cos)
+    (hc : ∀ ci ∈ cos, ∃ g isBlock root, CoOK preds ci g isBlock root) :
+    ∃ G, buildGraph goals preds cos = .ok G ∧
+      ∀ (fuel : Nat) (covs : List (Goal → Bool)),
+        let s := runUpdates G fuel (init G) covs
+        Inv G s ∧ (s.current = [] → ∀ i, i < goals.length → i ∈ s.covered) := by
+  obtain ⟨G, hG, hreach⟩ := all_goals_reachable hr hc
+  refine ⟨G, hG, ?_⟩
+  intro fuel covs
+  exact ⟨inv_history G fuel covs, fun he i hi => all_covered_when_no_current (inv_history G fuel covs) he (hreach i hi)⟩
+
+/-! ### `_create_covered_cdg`: removing excluded nodes keeps the hypotheses -/
+
+/-- Removing a node (≠ root) with the re-linking of `_create_covered_cdg` keeps every other node
+reachable from the root. -/
+theorem removeNode_reach {g : CG} {root x : Node} (hx : x ≠ root) {n : Node} (h : Reach g root n) :
+    (n ≠ x → Reach (removeNode g x) root n) ∧
+    (n = x → ∃ p l, p ≠ x ∧ Reach (removeNode g x) root p ∧ (p, x, l) ∈ g) := by
+  induction h with
+  | root => exact ⟨fun _ => Reach.root, fun h => absurd h.symm hx⟩
+  | @step m n l _ hedge ih =>
+    by_cases hm : m = x
+    · obtain ⟨p, lp, hpx, hrp, hpe⟩ := ih.2 hm
+      refine ⟨fun hn => ?_, fun hn => ⟨p, lp, hpx, hrp, hpe⟩⟩
+      subst hm
+      obtain ⟨l', hl'⟩ := removeNode_new hpe hpx hedge hn
+      exact Reach.step hrp hl'
+    · have hrm := ih.1 hm
+      refine ⟨fun hn => Reach.step hrm (removeNode_kept hedge hm hn), fun hn => ?_⟩
+      subst hn
+      exact ⟨m, l, hm, hrm, hedge⟩
+
+/-- The re-linked edges carry no branch value: every labelled edge of the new graph is an old one
+between surviving nodes. -/
+theorem removeNode_labelled {g : CG} {x p m : Node} {v : Bool} (h : (p, m, some v) ∈ removeNode g x) :
+    (p, m, some v) ∈ g ∧ p ≠ x ∧ m ≠ x :=
+  removeNode_some h
+
+/-- **Removal preserves the hypotheses of `all_goals_reachable`**: after removing any list of nodes
+(not containing the root) every surviving node that was reachable from the root still is, and every
+dependence edge of the result is a dependence edge of the original graph between surviving nodes —
+so, if the removed nodes are exactly the conditional nodes without registered predicate, labelled
+edges keep leaving registered predicate nodes only. -/
+theorem removeNodes_preserves {root : Node} (isBlock : Node → Bool) :
+    ∀ (xs : List Node) (g : CG), root ∉ xs →
+      (∀ n, Reach g root n → n ∉ xs → Reach (removeNodes g xs) root n) ∧
+      (∀ p v m, DepEdge (removeNodes g xs) isBlock p v m → DepEdge g isBlock p v m ∧ p ∉ xs ∧ m ∉ xs)
+  | [], g, _ => ⟨fun _ h _ => h, fun _ _ _ h => ⟨h, by simp, by simp⟩⟩
+  | x :: xs, g, hr => by
+    have hx : x ≠ root := fun h => hr (by simp [h])
+    have hr' : root ∉ xs := fun h => hr (by simp [h])
+    obtain ⟨ih1, ih2⟩ := removeNodes_preserves isBlock xs (removeNode g x) hr'
+    refine ⟨fun n hn hnx => ?_, fun p v m hd => ?_⟩
+    · have hne : n ≠ x := fun h => hnx (by simp [h])
+      exact ih1 n ((removeNode_reach hx hn).1 hne) (fun h => hnx (by simp [h]))
+    · obtain ⟨⟨he, hb⟩, hp, hm⟩ := ih2 p v m hd
+      obtain ⟨he', hpx, hmx⟩ := removeNode_labelled he
+      exact ⟨⟨he', hb⟩, by simp [hpx, hp], by simp [hmx, hm]⟩
+
+/-! ### The per-module hypothesis checkers are sound -/
+
+theorem checkAns_spec {c : CoData} {a : NodeAns} (h : checkAns c a = true) :
+    c.nodes.contains a.node = true ∧ a.node ∈ c.fwd ∧
+    (∀ p v, (p, v) ∈ a.deps ↔ ∃ m, DepEdge c.g c.isBlock p v m ∧ PassPath c.g c.isBlock m a.node) ∧
+    (PassPath c.g c.isBlock c.root a.node → a.rootDep = true ∨
+      ∃ p v, (p, v) ∈ a.deps ∧ c.rankOf p < c.rankOf a.node ∧ PassPath c.g c.isBlock c.root p) := by
+  simp only [checkAns, Bool.and_eq_true] at h
+  obtain ⟨⟨⟨⟨⟨⟨⟨hnode, hfwd⟩, _⟩, hwf⟩, hclosed⟩, hsub⟩, hsup⟩, hroot⟩ := h
+  obtain ⟨hn, hsound⟩ := wfBack_sound hwf
+  have hback : ∀ m, m ∈ a.back ↔ PassPath c.g c.isBlock m a.node :=
+    fun m => ⟨hsound m, fun hp => closedBack_complete hclosed hp hn⟩
+  refine ⟨hnode, by simpa using hfwd, ?_, ?_⟩
+  · intro p v
+    simp only [List.all_eq_true, List.contains_eq_mem, decide_eq_true_eq] at hsub hsup
+    constructor
+    · intro hd
+      obtain ⟨m, hdep, hm⟩ := mem_specDeps.1 (hsub _ hd)
+      exact ⟨m, hdep, (hback m).1 hm⟩
+    · rintro ⟨m, hdep, hp⟩
+      exact hsup _ (mem_specDeps.2 ⟨m, hdep, (hback m).2 hp⟩)
+  · intro hp
+    have hr : c.root ∈ a.back := (hback _).2 hp
+    simp only [Bool.or_eq_true, Bool.not_eq_true', List.contains_eq_mem, decide_eq_false_iff_not,
+      List.any_eq_true, Bool.and_eq_true, decide_eq_true_eq, beq_iff_eq] at hroot
+    rcases hroot with (h1 | h1) | ⟨d, hd, hlt, ap, _, ⟨hapn, hapr⟩, hapwf⟩
+    · exact Or.inl h1
+    · exact absurd hr h1
+    · right
+      refine ⟨d.1, d.2, hd, hlt, ?_⟩
+      have := (wfBack_sound hapwf).2 c.root hapr
+      rw [hapn] at this
+      exact this
+
+/-- The answer `toInfo` looks up for the node of a registered predicate is a checked one. -/
+theorem checkCo_ans {preds : List Pred} {c : CoData} (h : checkCo preds c = true) {pm : Pred}
+    (hpm : pm ∈ preds) (hco : pm.co = c.co) :
+    ∃ a, c.ans.find? (fun a => a.node == pm.node) = some a ∧ a.node = pm.node ∧ checkAns c a = true := by
+  simp only [checkCo, Bool.and_eq_true, List.all_eq_true] at h
+  obtain ⟨⟨_, hans⟩, hall⟩ := h
+  have h1 := hans pm hpm
+  simp only [Bool.or_eq_true, bne_iff_ne, ne_eq, List.any_eq_true, beq_iff_eq] at h1
+  rcases h1 with h1 | ⟨a0, ha0, hn0⟩
+  · exact absurd hco h1
+  · cases hf : c.ans.find? (fun a => a.node == pm.node) with
+    | none =>
+      rw [List.find?_eq_none] at hf
+      exact absurd (by simpa using hn0) (hf a0 ha0)
+    | some a =>
+      refine ⟨a, rfl, ?_, hall a (List.mem_of_find?_eq_some hf)⟩
+      simpa using List.find?_some hf
+
+theorem checkCo_sound {preds : List Pred} {c : CoData} (h : checkCo preds c = true) :
+    CoOK preds c.toInfo c.g c.isBlock c.root := by
+  have h' := h
+  simp only [checkCo, Bool.and_eq_true, List.all_eq_true] at h'
+  obtain ⟨⟨⟨⟨_, hfwd⟩, hlab⟩, _⟩, _⟩ := h'
+  refine ⟨?_, ?_, ?_, ?_, ?_⟩
+  · rintro p v m ⟨he, hb⟩
+    have := hlab _ he
+    simp only [isPass, hb, Option.isSome_some, Bool.and_self, Bool.not_true, Bool.false_or,
+      List.any_eq_true, Bool.and_eq_true, beq_iff_eq] at this
+    obtain ⟨dp, hdp, hc1, hc2⟩ := this
+    exact ⟨dp, hdp, hc1, hc2⟩
+  · intro pm hpm hco
+    obtain ⟨a, _, hn, hchk⟩ := checkCo_ans h hpm hco
+    have := (checkAns_spec hchk).1
+    rw [hn] at this
+    exact this
+  · intro pm hpm hco
+    obtain ⟨a, _, hn, hchk⟩ := checkCo_ans h hpm hco
+    have := (checkAns_spec hchk).2.1
+    rw [hn] at this
+    exact wfFwd_sound hfwd _ this
+  · intro pm hpm hco p v
+    obtain ⟨a, hf, hn, hchk⟩ := checkCo_ans h hpm hco
+    have := (checkAns_spec hchk).2.2.1 p v
+    rw [hn] at this
+    simpa [CoData.toInfo, hf] using this
+  · refine ⟨c.rankOf, ?_⟩
+    intro pm hpm hco hp
+    obtain ⟨a, hf, hn, hchk⟩ := checkCo_ans h hpm hco
+    have := (checkAns_spec hchk).2.2.2
+    rw [hn] at this
+    simpa [CoData.toInfo, hf] using this hp
+
+theorem checkRegistry_sound {goals : List GoalKind} {preds : List Pred} {cos : List CoData}
+    (h : checkRegistry goals preds cos = true) : RegistryOK goals preds (cos.map CoData.toInfo) := by
+  simp only [checkRegistry, Bool.and_eq_true, List.all_eq_true] at h
+  obtain ⟨⟨⟨hid, hgoals⟩, hco⟩, hreg⟩ := h
+  refine ⟨?_, ?_, ?_, ?_⟩
+  · intro p hp
+    simpa using hid p hp
+  · intro p hp v
+    have := hgoals p hp
+    simp only [List.contains_eq_mem, decide_eq_true_eq] at this
+    cases v
+    · exact this.2
+    · exact this.1
+  · intro p hp
+    have := hco p hp
+    rw [List.find?_map]
+    cases hf : cos.find? (fun c => c.co == p.co) with
+    | none => rw [hf] at this; cases this
+    | some c =>
+      refine ⟨c.toInfo, ?_⟩
+      have : (fun (ci : CoInfo) => ci.co == p.co) ∘ CoData.toInfo = (fun (c : CoData) => c.co == p.co) := rfl
+      rw [this, hf]; rfl
+  · intro c pid v hg
+    have := hreg _ hg
+    simp only at this
+    split at this
+    · rename_i pm hpm
+      exact ⟨pm, hpm, by simpa using this⟩
+    · cases this
+
+/-- **What the driver's `hyp = true` means for one exported module**: the real registries and CDG
+answers, fed to the model of `_build_graph`, give a goal graph without any failure, in which every
+goal is reachable from a root goal; and for every search history nothing is left uncovered when
+the current goals run empty. -/
+theorem checkModule_sound {goals : List GoalKind} {preds : List Pred} {cos : List CoData}
+    (h : checkModule goals preds cos = true) :
+    ∃ G, buildGraph goals preds (cos.map CoData.toInfo) = .ok G ∧
+      (∀ i, i < goals.length → GoalReach G i) ∧
+      ∀ (fuel : Nat) (covs : List (Goal → Bool)),
+        let s := runUpdates G fuel (init G) covs
+        Inv G s ∧ (s.current = [] → ∀ i, i < goals.length → i ∈ s.covered) := by
+  simp only [checkModule, Bool.and_eq_true, List.all_eq_true] at h
+  have hr := checkRegistry_sound h.1
+  have hc : ∀ ci ∈ cos.map CoData.toInfo, ∃ g isBlock root, CoOK preds ci g isBlock root := by
+    intro ci hci
+    obtain ⟨c, hc, rfl⟩ := List.mem_map.1 hci
+    exact ⟨c.g, c.isBlock, c.root, checkCo_sound (h.2 c hc)⟩
+  obtain ⟨G, hG, hreach⟩ := all_goals_reachable hr hc
+  refine ⟨G, hG, hreach, ?_⟩
+  intro fuel covs
+  exact ⟨inv_history G fuel covs,
+    fun he i hi => all_covered_when_no_current (inv_history G fuel covs) he (hreach i hi)⟩
+
 /-! ### Non-vacuity: a diamond-shaped goal graph and a two-batch history -/
 
 private def exG : GG := ⟨[0], [(0, 1), (0, 2), (1, 3), (2, 3)]⟩
@@ -174,5 +606,55 @@ private def exG : GG := ⟨[0], [(0, 1), (0, 2), (1, 3), (2, 3)]⟩
 example : (runUpdates exG 10 (init exG) [fun g => g == 0, fun g => g == 2]).current = [1, 3] := by decide
 example : (runUpdates exG 10 (init exG) [fun g => g == 0, fun g => g == 2]).covered = [0, 2] := by decide
 example : checkGoalPath exG [3, 2, 0] = true := by decide
+
+
+/-! ### Non-vacuity of the static part: `if a: (if b: … else: …)` — two nested predicates -/
+
+private def exGoals : List GoalKind :=
+  [.branch 0 0 true, .branch 0 0 false, .branch 0 1 true, .branch 0 1 false]
+private def exPreds : List Pred := [⟨0, 0, 3⟩, ⟨1, 0, 4⟩]
+private def exCo : CoData where
+  co := 0
+  nodes := [3, 4, 5, 6, 2]
+  blocks := [3, 4, 5, 6]
+  root := 2
+  g := [(2, 3, none), (3, 4, some true), (4, 5, some true), (4, 6, some false)]
+  fwd := [6, 5, 4, 3, 2]
+  rank := []
+  ans := [⟨3, [], true, [2, 3]⟩, ⟨4, [(3, true)], false, [4]⟩]
+
+example : checkModule exGoals exPreds [exCo] = true := by decide
+example : (buildGraph exGoals exPreds [exCo.toInfo]).toOption.map (fun G => (G.roots, G.edges)) =
+    some ([0, 1], [(0, 2), (0, 3)]) := by decide
+/-- The checkers reject a CDG in which a labelled edge leaves an unregistered node … -/
+example : checkModule exGoals [⟨0, 0, 3⟩] [exCo] = false := by decide
+/-- … and `_build_graph` then fails with the `KeyError` of `nodes_predicates[dependency.node]`. -/
+example : (match buildGraph exGoals [⟨0, 0, 4⟩, ⟨1, 0, 4⟩] [exCo.toInfo] with
+    | .error (.keyError 3) => true | _ => false) = true := by decide
+/-- Why `CoOK.root_or_closer` is not simply "finds every pass path": `_is_control_dependent_on_root`
+adds a predecessor to `visited` before looking at the edge label, so node 3, first met over the labelled
+edge 3 → 4, is never entered over its unlabelled (re-linked) edge 3 → 5: no root dependence is
+reported for node 5 although 2 → 3 → 5 is a pass path.  Node 5 then still depends on (3, true). -/
+theorem rootDep_incomplete_cex :
+    Cdg.rootDep [(2, 3, none), (3, 4, some true), (4, 5, none), (3, 5, none)] (fun n => n != 2) 2 5 = false ∧
+    Cdg.controlDeps [(2, 3, none), (3, 4, some true), (4, 5, none), (3, 5, none)] (fun n => n != 2) 5
+      = [(3, true)] := by decide
+
+private def exCo2 : CoData where
+  co := 0
+  nodes := [3, 4, 5, 2]
+  blocks := [3, 4, 5]
+  root := 2
+  g := [(2, 3, none), (3, 4, some true), (4, 5, none), (3, 5, none)]
+  fwd := [5, 4, 3, 2]
+  rank := [(2, 0), (3, 1), (5, 2)]
+  ans := [⟨3, [], true, [2, 3]⟩, ⟨5, [(3, true)], false, [2, 3, 4, 5]⟩]
+
+/-- … and the checkers accept exactly that answer (`rootDep = false`) thanks to the ranking clause. -/
+example : checkModule [.branch 0 0 true, .branch 0 0 false, .branch 0 1 true, .branch 0 1 false]
+    [⟨0, 0, 3⟩, ⟨1, 0, 5⟩] [exCo2] = true := by decide
+
+/-- Removing the excluded inner `if` (node 4) re-links its children to node 3 without label. -/
+example : removeNode exCo.g 4 = [(2, 3, none), (3, 5, none), (3, 6, none)] := by decide
 
 end PynguinModel.GoalGraph
